@@ -1,8 +1,8 @@
 #!/bin/bash
-# usage: tools/tryseed.sh <seeded dir name, e.g. C05-1> [check ids...]   -- applies the seeded patch to the scratch worktree /tmp/wt/CLEAN
+# usage: tools/tryseed.sh <seeded dir name, e.g. C05-1> [check ids...]   -- applies the seeded patch to the scratch worktree /tmp/wt/CLEAN2
 # (never to /repo), runs the quick checks against it through PSV_REPO, and reverts it.
 d=/verif/seeded/$1; shift
-W=/tmp/wt/CLEAN
+W=/tmp/wt/CLEAN2
 git -C $W checkout -- . ; git -C $W apply $d/patch.diff || { echo "patch does not apply"; exit 2; }
 if grep -q '^+++ b/.*\.[ch]$' $d/patch.diff; then (cd $W && /venv/bin/python setup.py build_ext -i >/dev/null 2>&1); fi
 for c in "$@"; do (cd /verif; PSV_REPO=$W ${TIER_ENV:-} ./check $c ${TIER:-quick} 2>&1 | grep "^VIOLATION\|^HARNESS\|^INCONC\|^  harness\|^\[C" | cut -c1-330 | head -${LINES_MAX:-7}); done
